@@ -17,7 +17,7 @@ def run(rep, tier, seed):
     rep.floor('table checks', ntab, 20)
     nttcheck.threshold_notes(rep, 'ntt')
     rep.floor('configurations', len(res), 1000 if tier == 'quick' else 20000)
-    nttrules.run_rules(rep, ('null', 'dep-s', 'shift', 'abort-census', 'w-chain'))
+    nttrules.run_rules(rep, ('null', 'dep-s', 'shift', 'abort-census', 'w-chain', 'fpround-ntt'))
     rep.sample(dict(kind='ntt', example=nttcheck.describe_ntt(cfgs[len(cfgs) // 2]), configurations=len(cfgs)))
     rep.cov['shapes'] = 'capacity<=%d, size|capacity, ncols, nphase, nblock, buffer, dst mode, nThreads (see rule)' % (32 if tier == 'quick' else 128)
     rep.assumptions += ['bounded in shape (universal in data and representation); the DFT identity for sizes beyond the bound is not decided']
